@@ -52,8 +52,9 @@ func DecodeAnyBase64(b []byte) ([]byte, error) {
 	decoded := make([]byte, d.DecodedLen(len(b)))
 	n, err := d.Decode(decoded, b)
 	if err != nil {
-		// unreachable unless there is a bug in WhichBase
-		panic(err)
+		// WhichBase64 is only a pre-filter: it accepts some strings with misplaced
+		// padding (e.g. "A=AA") that the decoder rejects.
+		return nil, ErrInvalidBase64
 	}
 
 	return decoded[:n], nil
